@@ -129,7 +129,7 @@ func (v *bindata) UnmarshalBinary(data []byte) error {
 		return nil
 	}
 	*v = make([]byte, length)
-	copy(*v, data[2:length+2])
+	copy(*v, data[2:int(length)+2])
 	return nil
 }
 
